@@ -917,45 +917,39 @@ def run(ctx):
     flush(ctx, pending)
     boundary_stream(ctx)
     int32_stream(ctx, ctx.rng('int32'))
-    # continue building on a re-read sequence (runs before the main stream so that a time-boxed run reaches it)
+    # the three program streams are interleaved (8 : 3 : 2), so that a time-boxed or escalated run reaches all of them:
+    #   main / multi programs; continue building on a re-read sequence; object history (one Sequence object is filled,
+    #   read()s other files, and is filled again)
     rngc = ctx.rng('continue')
-    for n in range({'quick': 150, 'thorough': 3000}[ctx.tier]):
-        if ctx.out_of_time():
-            break
-        case = gen_continue(rngc, ctx.tier)
-        ctx.count('continue.first_use.' + '-'.join(case['first_use']) + '/%d' % case['kinds_before_reload'])
-        run_program(ctx, case, pending)
-        if n == 3:
-            ctx.sample({'stream': 'continue', 'first_use': case['first_use'], 'pre': [[b['ops'], b['trigs']] for b in case['blocks'][:3]],
-                        'post': [[b['ops'], b['trigs']] for b in case['post'][:3]]})
-        if len(pending) >= 60:
-            flush(ctx, pending)
-    flush(ctx, pending)
-    # object history: one Sequence object is filled, read()s other files, and is filled again
     rngr = ctx.rng('reuse')
-    for n in range({'quick': 100, 'thorough': 2500}[ctx.tier]):
-        if ctx.out_of_time():
-            break
-        case = gen_reuse(rngr, ctx.tier)
-        run_reuse(ctx, case, pending)
-        if n == 2:
-            ctx.sample({'stream': 'reuse', 'pre': [[b['ops'], b['trigs']] for b in case['blocks'][:2]],
-                        'files': [[f['flavour'], [[b['ops'], b['trigs']] for b in f['blocks'][:2]]] for f in case['files']],
-                        'post': [[b['ops'], b['trigs']] for b in case['post'][:2]]})
-        if len(pending) >= 60:
-            flush(ctx, pending)
-    flush(ctx, pending)
     rng = ctx.rng('programs')
     rngm = ctx.rng('multi')
+    n_cont = n_reuse = 0
     for n in range(n_prog):
         if ctx.out_of_time():
-            ctx.notes.append('time budget reached after %d programs' % n)
+            ctx.notes.append('time budget reached after %d rounds' % n)
             break
         multi = n % 4 == 3
         case = gen_program(rngm if multi else rng, ctx.tier, multi=multi)
         run_program(ctx, case, pending)
         if n % 50 == 1:
             ctx.sample({'stream': case['stream'], 'blocks': [[b['ops'], b['trigs']] for b in case['blocks'][:4]], 'init': case['init']})
+        if n % 8 in (0, 3, 6):
+            case = gen_continue(rngc, ctx.tier)
+            ctx.count('continue.first_use.' + '-'.join(case['first_use']) + '/%d' % case['kinds_before_reload'])
+            run_program(ctx, case, pending)
+            n_cont += 1
+            if n_cont == 4:
+                ctx.sample({'stream': 'continue', 'first_use': case['first_use'], 'pre': [[b['ops'], b['trigs']] for b in case['blocks'][:3]],
+                            'post': [[b['ops'], b['trigs']] for b in case['post'][:3]]})
+        if n % 8 in (1, 5):
+            case = gen_reuse(rngr, ctx.tier)
+            run_reuse(ctx, case, pending)
+            n_reuse += 1
+            if n_reuse == 3:
+                ctx.sample({'stream': 'reuse', 'pre': [[b['ops'], b['trigs']] for b in case['blocks'][:2]],
+                            'files': [[f['flavour'], [[b['ops'], b['trigs']] for b in f['blocks'][:2]]] for f in case['files']],
+                            'post': [[b['ops'], b['trigs']] for b in case['post'][:2]]})
         if len(pending) >= 60:
             flush(ctx, pending)
     flush(ctx, pending)
